@@ -29,7 +29,10 @@ func (env *Zlisp) ImportPackageBuilder() {
 	env.ImportMinimalBuilder()
 	env.AddBuilder("infixExpand", InfixBuilder)
 	env.AddBuilder("infix", InfixBuilder)
-	env.AddBuilder("sys", SystemBuilder)
+	if !env.sandboxed {
+		// shells out
+		env.AddBuilder("sys", SystemBuilder)
+	}
 	env.AddBuilder("struct", StructBuilder)
 	env.AddBuilder("func", FuncBuilder)
 	env.AddBuilder("method", FuncBuilder)
@@ -40,7 +43,10 @@ func (env *Zlisp) ImportPackageBuilder() {
 	env.AddBuilder("expectError", ExpectErrorBuilder)
 	//	env.AddBuilder("&", AddressOfBuilder)
 
-	env.AddBuilder("import", ImportPackageBuilder)
+	if !env.sandboxed {
+		// reads and runs a file
+		env.AddBuilder("import", ImportPackageBuilder)
+	}
 
 	env.AddFunction("sliceOf", SliceOfFunction)
 	env.AddFunction("ptr", PointerToFunction)
